@@ -260,3 +260,21 @@ Definition check_case (k : cfg * list sstep * (list obs * bool * list exec)) : b
   let '(c, l, (os, fin, xs)) := k in
   let '(os', s) := run_steps c (init c) l in
   list_eqb obs_eqb os os' && eqb fin (mon_done s) && list_eqb exec_eqb xs (rev (execs s)).
+
+(* ---- scripts in which the producers-finished notification can arrive WHILE a task execution is in flight:
+   the controller decides with the snapshot it took before the launch, so such a poll behaves like
+   [Poll o] followed at once by the listed events (here: Notify), before the observation is taken. *)
+Definition sstep2 := (Z * list event * outcome * list event)%type.
+
+Fixpoint run_steps2 (c : cfg) (s : st) (l : list sstep2) : list obs * st :=
+  match l with
+  | [] => ([], s)
+  | (dt, evs, o, post) :: r =>
+      let s1 := run c (poll c (run c (step c s (Adv dt)) evs) o) post in
+      let '(os, s2) := run_steps2 c s1 r in (observe s1 :: os, s2)
+  end.
+
+Definition check_case2 (k : cfg * list sstep2 * (list obs * bool * list exec)) : bool :=
+  let '(c, l, (os, fin, xs)) := k in
+  let '(os', s) := run_steps2 c (init c) l in
+  list_eqb obs_eqb os os' && eqb fin (mon_done s) && list_eqb exec_eqb xs (rev (execs s)).
